@@ -35,6 +35,10 @@ fn main() {
         std::process::exit(2);
     }
     seq::install_quiet_panic_hook();
+    if args[1] == "debug-seeds" {
+        debug_seeds();
+        return;
+    }
     let code = if args[1] == "replay" {
         props::replay(&args[2])
     } else {
@@ -76,4 +80,14 @@ fn main() {
     };
     exec::cleanup_scratch_base();
     std::process::exit(code);
+}
+
+#[allow(dead_code)]
+pub fn debug_seeds() {
+    for (b, k) in [(3usize, 0usize), (3, 7), (3, 10), (2, 0)] {
+        println!("straddle({},{}) -> {:?}", b, k, seeds::seed_straddle(b, k).map(|s| (s.name, s.ops.len())));
+    }
+    for r in [0usize, 8, 10, 19, 30] {
+        println!("all_dead({}) -> {:?}", r, seeds::seed_all_dead_single_file(r).map(|s| (s.name, s.ops.len())));
+    }
 }
